@@ -1669,6 +1669,32 @@ func c01Timestamps(c *core.Ctx, r *core.Report) {
 											}
 										}
 									}
+								case *ast.SliceExpr:
+									// fixed-stride addressing: buf[K*i:] — the stride K is the width
+									if mul, isMul := ast.Unparen(x.Low).(*ast.BinaryExpr); x.Low != nil && isMul && mul.Op == token.MUL {
+										for _, side := range []ast.Expr{mul.X, mul.Y} {
+											if k, isK := constIntOf(info, side); isK {
+												steps++
+												if k != w {
+													ok, detail = false, fmt.Sprintf("addresses the records with a stride of %d", k)
+												}
+											}
+										}
+									}
+								case *ast.IndexExpr:
+									// buf[i] on a byte slice: a stride of one byte
+									if tv, has := info.Types[x.X]; has {
+										if sl, isSl := tv.Type.Underlying().(*types.Slice); isSl {
+											if bt, isB := sl.Elem().Underlying().(*types.Basic); isB && bt.Kind() == types.Uint8 {
+												if _, isMul := ast.Unparen(x.Index).(*ast.BinaryExpr); !isMul {
+													steps++
+													if w != 1 {
+														ok, detail = false, "reads one byte per record"
+													}
+												}
+											}
+										}
+									}
 								case *ast.ReturnStmt:
 									if len(x.Results) == 1 {
 										if k, isK := constIntOf(info, x.Results[0]); isK {
